@@ -383,6 +383,12 @@ func (ds *dataSet) trimLastEmptyAof() *dataSetAof {
 	if lastAof.rtSize.Load() == 0 {
 		delete(ds.aofMap, lastAof.Left())
 		ds.aofSegs = ds.aofSegs[:aofLast]
+		// readers decide by LastAofSeg() whether there is a successor to move on to
+		if aofLast > 0 {
+			ds.lastAofSeg.Store(ds.aofSegs[aofLast-1].Left())
+		} else {
+			ds.lastAofSeg.Store(-1)
+		}
 		return lastAof
 	}
 	return nil
